@@ -61,6 +61,10 @@ def num_ok(cv: dict, x, y) -> bool:
     return on_grid and lo - grid / 2 - slack <= Y <= hi + grid / 2 + slack
 
 
+# texts that are pieces or extensions of a unit the library knows: not units, so nothing may change
+NEAR_MISSES = [{"ANGLE": ""}, {"ANGLE": "d"}, {"ANGLE": "de"}, {"ANGLE": "eg"}, {"ANGLE": "degrees"}, {"SPEED": ""}, {"SPEED": "k"},
+               {"SPEED": "kt"}, {"SPEED": "ts"}, {"SPEED": "knots"}, {"TEMPERATURE": ""}, {"TEMPERATURE": "cc"}, {"TEMPERATURE": "fahrenheit"},
+               {"PRESSURE": ""}, {"PRESSURE": "ba"}, {"PRESSURE": "ps"}, {"PRESSURE": "bars"}, {"PRESSURE": "psig"}]
 PREFS = [{"TEMPERATURE": "c"}, {"TEMPERATURE": "C"}, {"TEMPERATURE": "F"}, {"TEMPERATURE": "f"}, {"PRESSURE": "bar"}, {"PRESSURE": "Bar"},
          {"PRESSURE": "PSI"}, {"PRESSURE": "psi"}, {"ANGLE": "deg"}, {"ANGLE": "DEG"}, {"SPEED": "kts"}, {"SPEED": "Kts"},
          {"TEMPERATURE": "kelvin"}, {"SPEED": "mph"}, {"ANGLE": "rad"}, {"LENGTH": "ft"}, {"TEMPERATURE": "c", "SPEED": "kts"},
@@ -113,8 +117,8 @@ def bind(chk: Check, tier: str, seed: int):
                     ks = range(int(y_lo / grid) + 1, int(y_hi / grid))
                     if len(ks) < 3:
                         continue
-                    for k in rng.sample(list(ks), min(len(ks), {"quick": 4, "thorough": 20, "selftest": 2}[tier])):
-                        for eps in (Fraction(-1, 100), Fraction(1, 100), Fraction(-1, 250), Fraction(1, 250)):
+                    for k in rng.sample(list(ks), min(len(ks), {"quick": 8, "thorough": 30, "selftest": 2}[tier])):
+                        for eps in (Fraction(-1, 100), Fraction(1, 100), Fraction(-1, 250), Fraction(1, 250), Fraction(-1, 1000), Fraction(1, 1000)):
                             x = ((k + Fraction(1, 2) + eps) * grid - b) / a
                             t = round((x - off) / res)
                             if lo_t <= t <= hi_t:
@@ -141,7 +145,12 @@ def bind(chk: Check, tier: str, seed: int):
                          if not any(c["qty"] == q and c["want"] == u.lower() for c in conv)]
                 if tier != "thorough":
                     cross = rng.sample(cross, min(len(cross), 6))
-            for pm in rel + (rng.sample(extra, 1) if extra else []) + cross:
+            if ":tie" in tag:          # a near-tie input matters under the conversion it was computed for
+                want = tag.split(":tie", 1)[1]
+                rel = [pm for pm in rel if want in (v.lower() for v in pm.values())]
+                extra = []
+            near = [pm for pm in NEAR_MISSES if set(pm) & qtys] if (tag == "base" or tag.startswith("rand0") or tag.endswith(":mid")) else []
+            for pm in rel + (rng.sample(extra, 1) if extra else []) + cross + near:
                 key = json.dumps(pm, sort_keys=True)
                 if key not in decs:
                     decs[key] = NMEA2000Decoder(preferred_units={PhysicalQuantities[k]: v for k, v in pm.items()})
